@@ -11,6 +11,9 @@ import itertools
 
 from .. import tt
 from .. import semantic as S
+from .. import pollute
+
+BEFORE_CASE = pollute.wreck        # state-leak adversary: see vmon/pollute.py
 
 RULE = ("family x graph x parameters x formula class: every simple graph with <= 4 vertices (cnfgen and networkx objects) and "
         "seeded 5/6-vertex graphs; Tseitin with every charge vector (also short/long/non-boolean), k-colouring k in 0..4 x "
@@ -106,10 +109,18 @@ def case_tseitin(ctx, cls, n, masks, as_nx):
         G, E = S.simple_graph(n, mask, as_nx)
         vectors = [None] + [list(bits) for bits in itertools.product([False, True], repeat=n)]
         vectors += [[int(b) for b in v] for v in vectors[1:3]] + CHARGE_EXTRAS
-        for ch in vectors:
+        for vi, ch in enumerate(vectors):
             desc = "TseitinFormula(%s,charges=%r)[%s%s]" % (gdesc(n, E), ch, cls, ",nx" if as_nx else "")
             arg = None if ch is None else list(ch)
-            F, at = setup(ctx, "tseitin", cls, desc, g.TseitinFormula, G, arg)
+            how = (vi + mask) % 6 if ch is not None and vi <= 2 ** n else 0
+            if how in (1, 2, 3):
+                # the same charges handed over as another kind of sequence / as a one-shot iterable
+                given = (tuple(ch), iter(list(ch)), (c for c in list(ch)))[how - 1]
+                desc = desc.replace("charges=", "charges=%s of " % ("tuple", "iter()", "generator")[how - 1])
+                ctx.count("tseitin_charges_as_%s" % ("tuple", "iterator", "generator")[how - 1])
+                F, at = setup(ctx, "tseitin", cls, desc, g.TseitinFormula, G, given, allowed_refusal=(how != 1))
+            else:
+                F, at = setup(ctx, "tseitin", cls, desc, g.TseitinFormula, G, arg)
             if F is None:
                 continue
             fam_count(ctx, "tseitin", cls, as_nx)
